@@ -11,42 +11,57 @@ import (
 	"github.com/bitcoin-sv/block-headers-service/verifharness/rig"
 )
 
-// pair: while two competing children of the tip are being submitted at once, the first repository read of the first
-// submitter waits (1.5 ms at most) for the second submitter's, so that both classify their block against the same tip when
-// nothing orders them.
-var pair struct {
+// pair, pairIns: while two competing children of the tip are being submitted at once, the first repository read of the
+// first submitter waits (1.5 ms at most) for the second submitter's, so that both classify their block against the same tip
+// when nothing orders them; and the first of them to reach its INSERT waits (5 ms at most) for the other to reach its own,
+// so that - when nothing keeps classification and INSERT of one submission together - both have classified before either
+// row exists. Where the service serialises submissions the second never arrives and the wait simply runs out.
+type rendezvous struct {
 	mu      sync.Mutex
 	on      bool
 	arrived int
 	waiting bool
 	both    chan struct{}
+	met     int
 }
 
-func pairRendezvous() {
-	pair.mu.Lock()
-	if !pair.on || pair.arrived >= 2 {
-		pair.mu.Unlock()
+var pair, pairIns rendezvous
+
+func (p *rendezvous) arm(on bool) {
+	p.mu.Lock()
+	p.on, p.arrived, p.waiting, p.both = on, 0, false, make(chan struct{})
+	p.mu.Unlock()
+}
+
+func (p *rendezvous) meet(patience time.Duration) {
+	p.mu.Lock()
+	if !p.on || p.arrived >= 2 {
+		p.mu.Unlock()
 		return
 	}
-	pair.arrived++
-	both := pair.both
-	if pair.arrived == 2 {
-		if pair.waiting {
+	p.arrived++
+	both := p.both
+	if p.arrived == 2 {
+		if p.waiting {
+			p.met++
 			close(both)
 		}
-		pair.mu.Unlock()
+		p.mu.Unlock()
 		return
 	}
-	pair.waiting = true
-	pair.mu.Unlock()
+	p.waiting = true
+	p.mu.Unlock()
 	select {
 	case <-both:
-	case <-time.After(1500 * time.Microsecond):
+	case <-time.After(patience):
 	}
-	pair.mu.Lock()
-	pair.waiting = false
-	pair.mu.Unlock()
+	p.mu.Lock()
+	p.waiting = false
+	p.mu.Unlock()
 }
+
+func pairRendezvous()       { pair.meet(1500 * time.Microsecond) }
+func pairInsertRendezvous() { pairIns.meet(5 * time.Millisecond) }
 
 // competingTips: two peers deliver different children of the tip at the same moment ("walks interleaved with ingestion of
 // new tip headers"). Whatever the order, one of them is on the longest chain and the listing visits that height once.
@@ -58,18 +73,22 @@ func (e *env) competingTips(rng *rand.Rand, counter *int) {
 		return h
 	}
 	a, b := mk(), mk()
-	pair.mu.Lock()
-	pair.on, pair.arrived, pair.waiting, pair.both = true, 0, false, make(chan struct{})
-	pair.mu.Unlock()
+	pair.arm(true)
+	pairIns.arm(true)
 	var wg sync.WaitGroup
 	var ra, rb rig.AddResult
 	wg.Add(2)
 	go func() { defer wg.Done(); ra = e.st.Add(a) }()
 	go func() { defer wg.Done(); rb = e.st.Add(b) }()
 	wg.Wait()
-	pair.mu.Lock()
-	pair.on = false
-	pair.mu.Unlock()
+	pair.arm(false)
+	pairIns.arm(false)
+	pairIns.mu.Lock()
+	if pairIns.met > 0 {
+		e.r.Count("competing_tip_pairs_both_at_their_insert_together", int64(pairIns.met))
+		pairIns.met = 0
+	}
+	pairIns.mu.Unlock()
 	if ra.Panic != nil || rb.Panic != nil || ra.Err != nil || rb.Err != nil {
 		e.r.Count("stores_skipped_ingest_divergence", 1)
 		e.failed = true
